@@ -190,7 +190,8 @@ package funcGen
 //@   ensures[each-compiled-for-context] result2 == nil ==> len(result0) == len(a) && fresh(result0) && (forall i in 0..len(a) :: compiledFor(result0[i], gc))
 //@   ensures[purity-flag-sound C02] result2 == nil && result1 ==> (forall i in 0..len(a) :: pureFn(result0[i]))
 //@   assigns any []string
-//@   loop 1 invariant 0 <= rangeidx && rangeidx <= len(a) && len(args) == len(a) && fresh(args) && (forall i in 0..rangeidx :: compiledFor(args[i], gc)) && (pure ==> (forall i in 0..rangeidx :: pureFn(args[i])))
+//@   loop 1 invariant 0 <= rangeidx && rangeidx <= len(a) && len(args) == len(a) && fresh(args) && (forall i in 0..rangeidx :: compiledFor(args[i], gc))
+//@   loop 1 invariant[C02] pure ==> (forall i in 0..rangeidx :: pureFn(args[i]))
 
 // pending call arguments occupy anonymous slots behind the named ones
 //@ func (c GeneratorContext) addPendingArgs
@@ -211,7 +212,8 @@ package funcGen
 //@   ensures[each-compiled-for-its-slot] result2 == nil ==> len(result0) == len(a) && fresh(result0) && (forall i in 0..len(a) :: result0[i] != nil && fs(result0[i]) == len(gc.am)+pending+i && cl(result0[i]) == len(gc.cm))
 //@   ensures[purity-flag-sound C02] result2 == nil && result1 ==> (forall i in 0..len(a) :: pureFn(result0[i]))
 //@   assigns any []string
-//@   loop 1 invariant 0 <= rangeidx && rangeidx <= len(a) && len(args) == len(a) && fresh(args) && (forall i in 0..rangeidx :: args[i] != nil && fs(args[i]) == len(gc.am)+pending+i && cl(args[i]) == len(gc.cm)) && (pure ==> (forall i in 0..rangeidx :: pureFn(args[i])))
+//@   loop 1 invariant 0 <= rangeidx && rangeidx <= len(a) && len(args) == len(a) && fresh(args) && (forall i in 0..rangeidx :: args[i] != nil && fs(args[i]) == len(gc.am)+pending+i && cl(args[i]) == len(gc.cm))
+//@   loop 1 invariant[C02] pure ==> (forall i in 0..rangeidx :: pureFn(args[i]))
 
 // the entries of a map literal are compiled in order by a function literal passed to ListMap.Iter; the literal is
 // verified as the body of that iteration (callback clauses)
@@ -224,7 +226,8 @@ package funcGen
 //@   ensures[each-compiled-for-context] result2 == nil ==> len(result0) == len(a) && fresh(result0) && (forall i in 0..len(a) :: result0[i].key == a[i].key && compiledFor(result0[i].value, gc))
 //@   ensures[purity-flag-sound C02] result2 == nil && result1 ==> (forall i in 0..len(a) :: pureFn(result0[i].value))
 //@   assigns any []string
-//@   callback "a.Iter(func" invariant err == nil && len(args) == cbidx && fresh(args) && (forall i in 0..cbidx :: args[i].key == a[i].key && compiledFor(args[i].value, gc)) && (pure ==> (forall i in 0..cbidx :: pureFn(args[i].value)))
+//@   callback "a.Iter(func" invariant err == nil && len(args) == cbidx && fresh(args) && (forall i in 0..cbidx :: args[i].key == a[i].key && compiledFor(args[i].value, gc))
+//@   callback "a.Iter(func" invariant[C02] pure ==> (forall i in 0..cbidx :: pureFn(args[i].value))
 //@   callback "a.Iter(func" stopped err != nil
 
 //@ func (g *FunctionGenerator[V]) createClosureLiteralFunc
@@ -249,7 +252,7 @@ package funcGen
 //@   ensures[purity-flag-sound C02] result2 == nil && result1 ==> pureFn(result0)
 //@   assigns any []string
 //@   loop 1 invariant 0 <= rangeidx && rangeidx <= len(a.Cases) && (forall i in 0..len(cases) :: compiledFor(cases[i].constFunc, gc) && compiledFor(cases[i].resultFunc, gc)) && (cap(cases) == 0 || fresh(cases))
-//@   loop 1 invariant pure ==> pureFn(switchValueFunc) && pureFn(defaultFunc) && (forall i in 0..len(cases) :: pureFn(cases[i].constFunc) && pureFn(cases[i].resultFunc))
+//@   loop 1 invariant[C02] pure ==> pureFn(switchValueFunc) && pureFn(defaultFunc) && (forall i in 0..len(cases) :: pureFn(cases[i].constFunc) && pureFn(cases[i].resultFunc))
 //@   closure-spec "return a.Value, nil" as ParserFunc attr fs(self) = len(gc.am), cl(self) = len(gc.cm), pureFn(self) = true returns[const-value] result1 == nil && result0 == a.Value assume nonnil(a.Value)
 // name resolution: a name bound in the frame (argument, let) wins over a captured outer value of the same name
 //@   closure-spec "return st.Get(index), nil" as ParserFunc attr fs(self) = len(gc.am), cl(self) = len(gc.cm), pureFn(self) = true when[frame-slot-of-the-name] 0 <= index && index < len(gc.am) && gc.am[index] == a.Name returns[reads-that-slot] result1 == nil && result0 == old(stack.storage.data[stack.offs+index])
